@@ -584,7 +584,7 @@ static void run_case(CaseCtx& c)
 
     // ---------------------------------------------------------------- 6. write / load with a chosen precision
     {
-        c.announce("roundtrip/precision-" + std::to_string(prec));
+        c.announce(cls + "/roundtrip/precision-" + std::to_string(prec));
         g.writeToFile(fr, ft, prec);
         ChildOutcome cl = c18::run_in_child([&] { PolarGrid h(fr, ft); });
         // the written decimals still describe a grid (distinct, positive values) when the precision resolves it
@@ -618,8 +618,22 @@ static void run_case(CaseCtx& c)
             g.writeToFile(fr, ft, 18);
         std::string lr, lt;
         Fault f          = make_fault(rng, fr, ft, lr, lt);
-        std::string fcls = "load/" + f.kind + "/" + (f.on_radii ? "radii-file" : "angles-file");
-        c.announce(fcls);
+        // what the damaged file still holds (classification only): numbers an istream extracts before it stops
+        std::string left = "unreadable";
+        {
+            const std::string& bad = f.on_radii ? lr : lt;
+            struct stat sb;
+            if (stat(bad.c_str(), &sb) == 0 && S_ISREG(sb.st_mode)) {
+                std::ifstream in(bad);
+                double v;
+                long cnt = 0;
+                while (in >> v)
+                    cnt++;
+                left = cnt <= 3 ? std::to_string(cnt) + "-values-left" : "4+values-left";
+            }
+        }
+        std::string fcls = "load/" + f.kind + "/" + (f.on_radii ? "radii-file" : "angles-file") + "/" + left;
+        c.announce(cls + "/" + fcls);
         ChildOutcome cl = c18::run_in_child([&] { PolarGrid h(lr, lt); });
         o.info.str("fault", f.kind + (f.on_radii ? "/radii" : "/angles")).str("fault_outcome", std::string(cl.kind_name()) + (cl.kind == ChildOutcome::STD_EXCEPTION ? " " + c18::squeeze(cl.what, 60) : ""));
         if (cl.kind == ChildOutcome::CRASH)
